@@ -14,13 +14,18 @@ CHECK = Check(
         "oracle on the implementation: runs with identical calls are bit-identical; runs whose inputs agree up to t agree on outputs up to t",
     ],
     assumptions=["all input series of a call have the same length"],
+    partial=[
+        "causal_<M> : Causal M.model proved for all 41 catalogue models (causal_catalogue) over any arithmetic; hypothesis: both the whole-period run and the truncated run succeed (a panicking truncated run is not covered)",
+        "hotstart_catalogue: hot-start continuity for 36 models at R; exceptions (hotStartExceptions): DateGenerator (no state, restarts at the parameter date: hotstart_DateGenerator_counterexample), InstreamDissolvedNutrientDecay, InstreamFineSediment, Sacramento, StorageRouting (see C06)",
+    ],
 )
 
 META = dict(
     category="proof",
-    text="Lean 4 theorems: causality of every scan-shaped kernel model (outputs up to t are unchanged by the inputs after t — corollary "
-         "of hot-start continuity) for all parameters/series/truncation points; purity holds by construction in the model and is tied "
-         "to the code by history correspondence: every Run of a history of real runs equals the history-free model's result.",
+    text="Lean 4 theorems: `causal_<M> : Causal M.model` for all 41 catalogue models, proved directly over any arithmetic (outputs up to t "
+         "are unchanged when the inputs after t are truncated or changed — also for the models where hot-start continuity fails), for "
+         "all parameters/series/truncation points; purity holds by construction in the model (total functions of parameters, states, inputs) "
+         "and is tied to the code by history correspondence: every Run of a history of real runs equals the history-free model's result.",
     design_ref="DESIGN.md §6 C14",
     note="Trusted: Lean kernel + 3 standard axioms; history generator (<= 12 runs over <= 4 objects per history); package-level state "
          "in the Go runtime or in cgo is outside the model.",
